@@ -89,8 +89,9 @@ void lemma_Atomic_Factors(void)
     VASSERT(SAME(f0, LEAF_FF_Rayl(Z, q) * debye) && SAME(f1, LEAF_Fi(Z, E) * debye) && SAME(f2, -LEAF_Fii(Z, E) * debye) && NO_ERROR(error),
             "Atomic_Factors = (form factor at q, f'(E), -f''(E)) x Debye factor"); }
   else { VASSERT(f0 == 0.0 && f1 == 0.0 && f2 == 0.0, "Atomic_Factors: on failure all three factors are 0");
-    VASSERT(!(LEAFOK_FF_Rayl(Z, q) && LEAFOK_Fi(Z, E) && LEAFOK_Fii(Z, E)) || (LEAF_FF_Rayl(Z, q) * debye == 0.0 || LEAF_Fi(Z, E) * debye == 0.0 || -LEAF_Fii(Z, E) * debye == 0.0),
-            "Atomic_Factors fails only when a factor is unavailable (or vanishes, see known findings)"); }
+    VASSERT(!(LEAFOK_FF_Rayl(Z, q) && LEAFOK_Fi(Z, E) && LEAFOK_Fii(Z, E)),
+            "Atomic_Factors fails only when a factor is unavailable: a factor that is exactly 0 is a value");
+    VASSERT(ONE_ERROR(error), "Atomic_Factors: every failure carries exactly one error"); }
 }
 #endif
 #ifdef STUB_FH_CALLEES
